@@ -306,6 +306,125 @@ def run_history(text, rnd, specs, maxlen, part):
         return None, hist, None
 
 
+def judge_written(part, wd, text, out, hist):
+    """Structural monitor + compiler oracle on one written program."""
+    has_dir = "!$omp" in out or "!$acc" in out
+    part.count("histories_written")
+    fault = directive_monitor(out)
+    part.count("monitor_evaluations")
+    hs = [(a, b) for a, b in hist]
+    code = None
+    if fault:
+        code = fault[0]
+        part.violation({
+            "kind": "invalid_directive_structure",
+            "mechanism": code,
+            "what": "history %s: %s" % (hs, fault[1]),
+            "source": text, "written": out, "history": hs,
+            "dedupe": code})
+    ok, err = fx.compile_f(wd, [("m.f90", out)], flags=[
+        "-O0", "-fopenmp", "-fopenacc", "-fimplicit-none",
+        "-ffree-line-length-none"], compile_only=True)
+    part.count("compiles")
+    if not ok:
+        msg = [l for l in err.splitlines() if "Error" in l]
+        part.violation({
+            "kind": "compiler_rejects_generated_code",
+            "mechanism": code,
+            "what": "history %s: %s" % (hs, (msg or [err])[0]
+                                        [:300]),
+            "source": text, "written": out, "history": hs,
+            "compiler": err[-800:],
+            "dedupe": re.sub(r"\d+", "N",
+                             (msg or [err])[0])[:70]})
+    part.case(key=(text, hs), nontrivial=has_dir,
+              sample={"history": hs, "written": out[:1200]}
+              if has_dir and len(part.d["samples"]) < 1
+              else None)
+
+
+def nest_program(rnd):
+    """2-/3-deep loop nests: perfect, with a statement before / after the
+    inner loop (imperfect although the inner loop may be the FIRST statement
+    of the body), triangular."""
+    from vf.flite import B as B_, V as V_, I as I_, R as R_, A as A_
+    shape = rnd.choice(["perfect", "stmt_after", "stmt_before", "triangular",
+                        "perfect3", "after3"])
+    core = [["assign", A_("m2", V_("i"), V_("j")),
+             B_("+", A_("m2", V_("i"), V_("j")), R_(1.0))]]
+    if shape in ("perfect3", "after3"):
+        core = [["do", "k", I_(1), I_(2), None, [
+            ["assign", A_("m2", V_("i"), V_("j")),
+             B_("+", A_("m2", V_("i"), V_("j")), R_(1.0))]]]]
+        if shape == "after3":
+            core.append(["assign", A_("m2", V_("i"), V_("j")), R_(3.0)])
+    jlo = V_("i") if shape == "triangular" else I_(1)
+    inner = ["do", "j", jlo, V_("n"), None, core]
+    body = [inner]
+    if shape == "stmt_after":
+        body.append(["assign", A_("a", V_("i")), R_(2.0)])
+    if shape == "stmt_before":
+        body.insert(0, ["assign", A_("a", V_("i")), R_(2.0)])
+    unit = scen._unit(rnd, [["do", "i", I_(1), V_("n"), None, body]])
+    return unit, shape
+
+
+def directed_batch(arg):
+    """Every collapse-carrying directive on every nest shape, followed by
+    the region transformation it needs."""
+    from psyclone.errors import PSycloneError
+    from psyclone.psyir.nodes import Loop, Directive
+    from psyclone import transformations as T
+    from psyclone.psyir import transformations as P
+    part = Part()
+    rnd = random.Random(arg["seed"])
+    wd = tempfile.mkdtemp(prefix="vf_c10d_")
+    loopers = [("OMPLoopTrans[%s]" % d,
+                (lambda d=d: P.OMPLoopTrans(omp_directive=d)))
+               for d in ("do", "paralleldo", "teamsdistributeparalleldo",
+                         "loop")] + \
+        [("OMPParallelLoopTrans", T.OMPParallelLoopTrans),
+         ("ACCLoopTrans", T.ACCLoopTrans)]
+    try:
+        for n in range(arg["count"]):
+            unit, shape = nest_program(rnd)
+            text = flite.module_text(unit)
+            for lname, lfac in loopers:
+                for depth in (2, 3):
+                    for wrap in (True, False):
+                        tree = psy.read(text)
+                        hist = []
+                        try:
+                            lfac().apply(tree.walk(Loop)[0],
+                                         {"collapse": depth})
+                            hist.append((lname, {"collapse": depth}))
+                            part.count("accepted:" + lname.split("[")[0])
+                        except PSycloneError:
+                            part.count("refused")
+                            continue
+                        if wrap:
+                            rt = T.ACCParallelTrans if lname.startswith(
+                                "ACC") else T.OMPParallelTrans
+                            try:
+                                rt().apply(tree.walk(Directive)[0])
+                                hist.append((rt.__name__, None))
+                                part.count("accepted:" + rt.__name__)
+                            except PSycloneError:
+                                part.count("refused")
+                                continue
+                        try:
+                            out = psy.write(tree)
+                        except PSycloneError:
+                            part.count("writer_refused")
+                            part.count("writer_refused:" + shape)
+                            continue
+                        part.count("directed_written:" + shape)
+                        judge_written(part, wd, text, out, hist)
+    finally:
+        shutil.rmtree(wd, ignore_errors=True)
+    return part
+
+
 def batch(arg):
     part = Part()
     rnd = random.Random(arg["seed"])
@@ -333,39 +452,7 @@ def batch(arg):
                 if out is None:
                     part.case(key=None, nontrivial=False)
                     continue
-                has_dir = "!$omp" in out or "!$acc" in out
-                part.count("histories_written")
-                fault = directive_monitor(out)
-                part.count("monitor_evaluations")
-                hs = [(a, b) for a, b in hist]
-                code = None
-                if fault:
-                    code = fault[0]
-                    part.violation({
-                        "kind": "invalid_directive_structure",
-                        "mechanism": code,
-                        "what": "history %s: %s" % (hs, fault[1]),
-                        "source": text, "written": out, "history": hs,
-                        "dedupe": code})
-                ok, err = fx.compile_f(wd, [("m.f90", out)], flags=[
-                    "-O0", "-fopenmp", "-fopenacc", "-fimplicit-none",
-                    "-ffree-line-length-none"], compile_only=True)
-                part.count("compiles")
-                if not ok:
-                    msg = [l for l in err.splitlines() if "Error" in l]
-                    part.violation({
-                        "kind": "compiler_rejects_generated_code",
-                        "mechanism": code,
-                        "what": "history %s: %s" % (hs, (msg or [err])[0]
-                                                    [:300]),
-                        "source": text, "written": out, "history": hs,
-                        "compiler": err[-800:],
-                        "dedupe": re.sub(r"\d+", "N",
-                                         (msg or [err])[0])[:70]})
-                part.case(key=(text, hs), nontrivial=has_dir,
-                          sample={"history": hs, "written": out[:1200]}
-                          if has_dir and len(part.d["samples"]) < 1
-                          else None)
+                judge_written(part, wd, text, out, hist)
     finally:
         shutil.rmtree(wd, ignore_errors=True)
     return part
@@ -377,12 +464,22 @@ def main(ctx):
                 "variants (collapse 2/3, nowait, gang/vector, force) applied "
                 "to random loops / statement ranges of generated kernels; a "
                 "case = one history that was written; non-trivial = the text "
-                "contains a directive; distinct by (source, history)")
+                "contains a directive; distinct by (source, history); plus "
+                "directed histories: every collapse-carrying loop directive "
+                "(depth 2, 3) on perfect / imperfect / triangular 2- and "
+                "3-deep nests, with and without the enclosing region "
+                "transformation")
     nb = 32 if ctx.quick else 160
     jobs = [{"seed": ctx.rng("b", i).random(), "count": 5 if ctx.quick else 20,
              "histories": 8 if ctx.quick else 12,
              "maxlen": 6 if ctx.quick else 10} for i in range(nb)]
     for res in ctx.pmap("vf.checks.c10", "batch", jobs, timeout=3400):
+        if res:
+            ctx.merge(res)
+    djobs = [{"seed": ctx.rng("d", i).random(),
+              "count": 3 if ctx.quick else 12} for i in range(16)]
+    for res in ctx.pmap("vf.checks.c10", "directed_batch", djobs,
+                        timeout=3400):
         if res:
             ctx.merge(res)
     if ctx.counters.get("monitor_evaluations", 0) == 0:
